@@ -331,7 +331,8 @@ class ExprGen:
     nested slices/Cat/Replicate).  `lowered=True` restricts slices to signals (the shape that reaches the
     printer after lower_complex_slices)."""
 
-    def __init__(self, rng, sigs, lowered=True, maxw=24):
+    def __init__(self, rng, sigs, lowered=True, maxw=24, tame=False):
+        self.tame = tame
         self.rng = rng
         self.sigs = sigs
         self.lowered = lowered
@@ -363,32 +364,97 @@ class ExprGen:
         return _Slice(v, lo, hi)
 
     def gen(self, depth):
+        if self.tame:
+            return self.gen_tame(depth)
+        return self.gen_wild(depth)
+
+    # -- tame: the shapes real RTL is made of; arithmetic only at the top of a right-hand side --------------
+    def atom(self):
+        r = self.rng
+        k = r.random()
+        s = r.choice(self.sigs)
+        if k < 0.55:
+            return s
+        if k < 0.8 and s.nbits > 1:
+            return self.slice_of(s)
+        return Constant(r.randrange(0, 1 << r.randint(1, 4)))
+
+    def boolean(self, depth):
+        r = self.rng
+        k = r.random()
+        if depth <= 0 or k < 0.35:
+            a = self.atom()
+            b = r.choice([self.atom(), Constant(r.randrange(0, 1 << min(len(a), 4)))])
+            return _Operator(r.choice(CMP), [a, b])
+        if k < 0.5:
+            s = r.choice(self.sigs)
+            return _Slice(s, 0, 1) if s.nbits > 1 else s
+        if k < 0.7:
+            return _Operator("~", [self.boolean(depth - 1)])
+        return _Operator(r.choice(BITW), [self.boolean(depth - 1), self.boolean(depth - 1)])
+
+    def word(self, depth):
+        r = self.rng
+        k = r.random()
+        if depth <= 0 or k < 0.3:
+            return self.atom()
+        if k < 0.5:
+            return _Operator(r.choice(BITW), [self.word(depth - 1), self.word(depth - 1)])
+        if k < 0.6:
+            return Mux(self.boolean(depth - 1), self.word(depth - 1), self.word(depth - 1))
+        if k < 0.75:
+            return Cat(*[self.word(depth - 1) for _ in range(r.randint(1, 3))])
+        if k < 0.8:
+            return Replicate(self.word(depth - 1), r.randint(1, 3))
+        if k < 0.85:
+            return _Operator("~", [self.word(depth - 1)])
+        if k < 0.92:
+            return _Operator(">>>", [self.atom(), Constant(r.randint(0, 3))])
+        return self.boolean(depth - 1)
+
+    def gen_tame(self, depth):
+        r = self.rng
+        k = r.random()
+        if k < 0.3:
+            e = _Operator(r.choice(ARITH + ["+", "-"]), [self.word(depth - 1), self.word(depth - 1)])
+        elif k < 0.4:
+            e = _Operator("<<<", [self.word(depth - 1), Constant(r.randint(0, 3))])
+        elif k < 0.6:
+            e = self.boolean(depth)
+        else:
+            e = self.word(depth)
+        if len(e) > self.maxw:
+            return self.leaf()
+        return e
+
+    def gen_wild(self, depth):
         r = self.rng
         if depth <= 0 or r.random() < 0.15:
             return self.leaf()
         k = r.random()
         if k < 0.25:
-            e = _Operator(r.choice(ARITH), [self.gen(depth - 1), self.gen(depth - 1)])
+            e = _Operator(r.choice(ARITH), [self.gen_wild(depth - 1), self.gen_wild(depth - 1)])
         elif k < 0.40:
-            e = _Operator(r.choice(BITW), [self.gen(depth - 1), self.gen(depth - 1)])
+            e = _Operator(r.choice(BITW), [self.gen_wild(depth - 1), self.gen_wild(depth - 1)])
         elif k < 0.55:
-            e = _Operator(r.choice(CMP), [self.gen(depth - 1), self.gen(depth - 1)])
+            e = _Operator(r.choice(CMP), [self.gen_wild(depth - 1), self.gen_wild(depth - 1)])
         elif k < 0.63:
-            e = _Operator(r.choice(["~", "~", "-"]), [self.gen(depth - 1)])
+            e = _Operator(r.choice(["~", "~", "-"]), [self.gen_wild(depth - 1)])
         elif k < 0.70:
-            amt = r.choice([Constant(r.randint(0, 5)), self.small_unsigned()])
-            e = _Operator(r.choice(["<<<", ">>>"]), [self.gen(depth - 1), amt])
+            amt = r.choice([Constant(r.randint(0, 5)), self.small_unsigned(), self.small_unsigned(),
+                            r.choice(self.sigs) if r.random() < 0.15 else Constant(1)])
+            e = _Operator(r.choice(["<<<", ">>>"]), [self.gen_wild(depth - 1), amt])
         elif k < 0.78:
-            e = Mux(self.gen(depth - 1), self.gen(depth - 1), self.gen(depth - 1))
+            e = Mux(self.gen_wild(depth - 1), self.gen_wild(depth - 1), self.gen_wild(depth - 1))
         elif k < 0.86:
             if self.lowered:
                 e = self.slice_of(r.choice(self.sigs))
             else:
-                e = self.slice_of(self.gen(depth - 1))
+                e = self.slice_of(self.gen_wild(depth - 1))
         elif k < 0.95:
-            e = Cat(*[self.gen(depth - 1) for _ in range(r.randint(1, 3))])
+            e = Cat(*[self.gen_wild(depth - 1) for _ in range(r.randint(1, 3))])
         else:
-            e = Replicate(self.gen(depth - 1), r.randint(1, 3))
+            e = Replicate(self.gen_wild(depth - 1), r.randint(1, 3))
         if len(e) > self.maxw:
             return self.leaf()
         return e
@@ -854,8 +920,9 @@ class StmtGen:
 
     def cond(self):
         r = self.rng
-        e = self.eg.gen(r.randint(0, 2))
-        return e
+        if self.eg.tame:
+            return self.eg.boolean(r.randint(0, 2))
+        return self.eg.gen(r.randint(0, 2))
 
     def stmts(self, targets, depth, n=None):
         r = self.rng
@@ -873,7 +940,7 @@ class StmtGen:
                     s = s.Else(*self.stmts(targets, depth - 1))
                 out.append(s)
             else:
-                test = self.eg.gen(r.randint(0, 1))
+                test = self.eg.atom() if self.eg.tame else self.eg.gen(r.randint(0, 1))
                 n_t = min(len(test), 4)
                 keys = r.sample(range(0, 1 << n_t), k=min(r.randint(1, 4), 1 << n_t))
                 cases = {}
@@ -887,17 +954,18 @@ class StmtGen:
         return out
 
 
-def random_module(rng, lowered_exprs=False, maxw=9):
+def random_module(rng, lowered_exprs=False, maxw=9, tame=False):
     """A small synchronous module: inputs, registers (some signed, some with non-zero reset, some reset-less),
     combinational signals defined in dependency order (acyclic)."""
     from migen import Module, ClockDomain
     m = Module()
     m.clock_domains.cd_sys = ClockDomain("sys")
-    ins = make_sigs(rng, rng.randint(2, 4), maxw=maxw, prefix="i")
+    ps = 0.08 if tame else 0.3
+    ins = make_sigs(rng, rng.randint(2, 4), maxw=maxw, prefix="i", p_signed=ps)
     regs = []
     for k in range(rng.randint(1, 3)):
         w = rng.randint(1, maxw)
-        signed = rng.random() < 0.3
+        signed = rng.random() < ps
         lo, hi = (-(1 << (w - 1)), (1 << (w - 1)) - 1) if signed else (0, (1 << w) - 1)
         rst = rng.choice([0, 0, rng.randint(lo, hi)])
         regs.append(Signal((w, signed), name_override="r%d" % k, reset=rst, reset_less=rng.random() < 0.2))
@@ -905,15 +973,15 @@ def random_module(rng, lowered_exprs=False, maxw=9):
     readable = ins + regs
     for k in range(rng.randint(1, 3)):
         w = rng.randint(1, maxw)
-        signed = rng.random() < 0.3
+        signed = rng.random() < ps
         lo, hi = (-(1 << (w - 1)), (1 << (w - 1)) - 1) if signed else (0, (1 << w) - 1)
         c = Signal((w, signed), name_override="c%d" % k, reset=rng.choice([0, 0, rng.randint(lo, hi)]))
-        eg = ExprGen(rng, list(readable), lowered=lowered_exprs)
+        eg = ExprGen(rng, list(readable), lowered=lowered_exprs, tame=tame)
         sg = StmtGen(rng, eg)
         m.comb += sg.stmts([c], rng.randint(0, 2))
         combs.append(c)
         readable = readable + [c]
-    eg = ExprGen(rng, list(readable), lowered=lowered_exprs)
+    eg = ExprGen(rng, list(readable), lowered=lowered_exprs, tame=tame)
     sg = StmtGen(rng, eg)
     m.sync += sg.stmts(regs, rng.randint(1, 3))
     ios = set(ins) | set(regs[:1]) | set(combs[:2]) | {m.cd_sys.clk, m.cd_sys.rst}
@@ -982,3 +1050,397 @@ def prepare(dut):
         if s.name_override is None:
             s.name_override = "n%d" % k
     return f, ios, [cd.name for cd in f.clock_domains]
+
+
+# ----------------------------------------------------------------------------------------------------------
+# Independent golden reading of the emitted Verilog (used by the failing-input search only).
+# A second, deliberately simple implementation of IEEE 1364-2005 §5.4/§5.5 over the parser's token trees,
+# written without reference to the Lean model: (1) size and type bottom-up, (2) evaluate top-down with the
+# context size/type.  Values are Python ints in [0, 2^W).
+# ----------------------------------------------------------------------------------------------------------
+
+class VNode:
+    __slots__ = ("k", "a", "w", "s")
+
+    def __init__(self, k, a):
+        self.k = k
+        self.a = a
+        self.w = None
+        self.s = None
+
+
+def build_vtree(toks, pos=0):
+    """Token list (prefix notation) -> (VNode, next position)."""
+    t = toks[pos]
+    if t == "l":
+        return VNode("lit", (int(toks[pos + 1]), toks[pos + 2] == "1", int(toks[pos + 3]))), pos + 4
+    if t == "i":
+        return VNode("id", (int(toks[pos + 1]), int(toks[pos + 2]), toks[pos + 3] == "1")), pos + 4
+    if t == "u":
+        a, p = build_vtree(toks, pos + 2)
+        return VNode("un", (toks[pos + 1], a)), p
+    if t == "b":
+        a, p = build_vtree(toks, pos + 2)
+        b, p = build_vtree(toks, p)
+        return VNode("bin", (toks[pos + 1], a, b)), p
+    if t == "t":
+        c, p = build_vtree(toks, pos + 1)
+        a, p = build_vtree(toks, p)
+        b, p = build_vtree(toks, p)
+        return VNode("cond", (c, a, b)), p
+    if t == "p":
+        a, p = build_vtree(toks, pos + 3)
+        return VNode("psel", (int(toks[pos + 1]), int(toks[pos + 2]), a)), p
+    if t == "q":
+        a, p = build_vtree(toks, pos + 2)
+        return VNode("psel", (int(toks[pos + 1]), int(toks[pos + 1]), a)), p
+    if t == "k":
+        n = int(toks[pos + 1])
+        p = pos + 2
+        l = []
+        for _ in range(n):
+            e, p = build_vtree(toks, p)
+            l.append(e)
+        return VNode("cat", l), p
+    if t == "r":
+        a, p = build_vtree(toks, pos + 2)
+        return VNode("rep", (int(toks[pos + 1]), a)), p
+    if t == "g":
+        a, p = build_vtree(toks, pos + 1)
+        return VNode("signed", a), p
+    raise ParseError("bad token " + t)
+
+
+_CMPS = {"lt": lambda x, y: x < y, "le": lambda x, y: x <= y, "eq": lambda x, y: x == y,
+         "ne": lambda x, y: x != y, "gt": lambda x, y: x > y, "ge": lambda x, y: x >= y}
+
+
+def v_size(n):
+    """Annotate self-determined width and signedness."""
+    k = n.k
+    if k == "lit":
+        n.w, n.s = n.a[0], n.a[1]
+    elif k == "id":
+        n.w, n.s = n.a[1], n.a[2]
+    elif k == "un":
+        v_size(n.a[1])
+        n.w, n.s = n.a[1].w, n.a[1].s
+    elif k == "bin":
+        op, a, b = n.a
+        v_size(a)
+        v_size(b)
+        if op in _CMPS:
+            n.w, n.s = 1, False
+        elif op in ("shl", "shr"):
+            n.w, n.s = a.w, a.s
+        else:
+            n.w, n.s = max(a.w, b.w), a.s and b.s
+    elif k == "cond":
+        c, a, b = n.a
+        v_size(c)
+        v_size(a)
+        v_size(b)
+        n.w, n.s = max(a.w, b.w), a.s and b.s
+    elif k == "psel":
+        v_size(n.a[2])
+        n.w, n.s = n.a[0] - n.a[1] + 1, False
+    elif k == "cat":
+        for e in n.a:
+            v_size(e)
+        n.w, n.s = sum(e.w for e in n.a), False
+    elif k == "rep":
+        v_size(n.a[1])
+        n.w, n.s = n.a[0] * n.a[1].w, False
+    elif k == "signed":
+        v_size(n.a)
+        n.w, n.s = n.a.w, True
+    return n
+
+
+def _extend(v, w, W, signed_ctx):
+    if signed_ctx and w > 0 and (v >> (w - 1)) & 1:
+        v |= ((1 << W) - 1) & ~((1 << w) - 1)
+    return v
+
+
+def _as_signed(v, w):
+    return v - (1 << w) if (v >> (w - 1)) & 1 else v
+
+
+def v_eval(n, env, W, sg):
+    """Evaluate in a context of W bits whose type is signed iff sg; env: id -> bits."""
+    M = (1 << W) - 1
+    k = n.k
+    if k == "lit":
+        return _extend(n.a[2] & ((1 << n.w) - 1), n.w, W, sg)
+    if k == "id":
+        return _extend(env[n.a[0]] & ((1 << n.w) - 1), n.w, W, sg)
+    if k == "un":
+        x = v_eval(n.a[1], env, W, sg)
+        return (-x) & M if n.a[0] == "neg" else (~x) & M
+    if k == "bin":
+        op, a, b = n.a
+        if op in _CMPS:
+            w = max(a.w, b.w)
+            s = a.s and b.s
+            x = v_eval(a, env, w, s)
+            y = v_eval(b, env, w, s)
+            if s:
+                x, y = _as_signed(x, w), _as_signed(y, w)
+            return _extend(int(_CMPS[op](x, y)), 1, W, sg)
+        if op in ("shl", "shr"):
+            x = v_eval(a, env, W, sg)
+            amt = v_eval(b, env, b.w, b.s)
+            if op == "shl":
+                return (x << amt) & M
+            if sg:
+                return (_as_signed(x, W) >> amt) & M
+            return x >> amt
+        x = v_eval(a, env, W, sg)
+        y = v_eval(b, env, W, sg)
+        if op == "add":
+            return (x + y) & M
+        if op == "sub":
+            return (x - y) & M
+        if op == "mul":
+            return (x * y) & M
+        if op == "and":
+            return x & y
+        if op == "or":
+            return x | y
+        if op == "xor":
+            return x ^ y
+        raise ParseError(op)
+    if k == "cond":
+        c, a, b = n.a
+        return v_eval(a, env, W, sg) if v_eval(c, env, c.w, c.s) != 0 else v_eval(b, env, W, sg)
+    if k == "psel":
+        hi, lo, a = n.a
+        x = v_eval(a, env, a.w, a.s)
+        return _extend((x >> lo) & ((1 << n.w) - 1), n.w, W, sg)
+    if k == "cat":
+        v = 0
+        for e in n.a:
+            v = (v << e.w) | v_eval(e, env, e.w, e.s)
+        return _extend(v, n.w, W, sg)
+    if k == "rep":
+        cnt, a = n.a
+        x = v_eval(a, env, a.w, a.s)
+        v = 0
+        for _ in range(cnt):
+            v = (v << a.w) | x
+        return _extend(v, n.w, W, sg)
+    if k == "signed":
+        return _extend(v_eval(n.a, env, n.a.w, n.a.s), n.w, W, sg)
+    raise ParseError(k)
+
+
+def v_assign_value(tree, env, lw):
+    """Bits stored by `target <= expr` for an lw-bit target."""
+    W = max(lw, tree.w)
+    return v_eval(tree, env, W, tree.s) & ((1 << lw) - 1)
+
+
+class SafeGen:
+    """Expressions on which Migen's unbounded and Verilog's context-width arithmetic provably coincide (no
+    overflow-capable operator below a self-determined boundary, every operand exact in its width, signed
+    operands only as direct operands of comparisons / top-level operators): the domain of the independent
+    oracle.  A mismatch between the real Evaluator and the golden reading of the real text on such an
+    expression is a genuine failing input."""
+
+    def __init__(self, rng, usigs, ssigs):
+        self.rng = rng
+        self.u = usigs
+        self.s = ssigs
+
+    def atom(self):
+        r = self.rng
+        k = r.random()
+        s = r.choice(self.u)
+        if k < 0.55:
+            return s
+        if k < 0.8 and s.nbits > 1:
+            lo = r.randrange(0, s.nbits)
+            return _Slice(s, lo, r.randint(lo + 1, s.nbits))
+        return Constant(r.randrange(0, 1 << r.randint(1, 4)))
+
+    def anyatom(self):
+        if self.s and self.rng.random() < 0.4:
+            return self.rng.choice(self.s)
+        return self.atom()
+
+    def boolean(self, d):
+        r = self.rng
+        k = r.random()
+        if d <= 0 or k < 0.45:
+            return _Operator(r.choice(CMP), [self.anyatom(), self.anyatom()])
+        if k < 0.6:
+            s = r.choice(self.u)
+            return _Slice(s, 0, 1) if s.nbits > 1 else s
+        return _Operator(r.choice(BITW), [self.boolean(d - 1), self.boolean(d - 1)])
+
+    def word(self, d):
+        r = self.rng
+        k = r.random()
+        if d <= 0 or k < 0.3:
+            return self.atom()
+        if k < 0.5:
+            return _Operator(r.choice(BITW), [self.word(d - 1), self.word(d - 1)])
+        if k < 0.62:
+            return Mux(self.boolean(d - 1), self.word(d - 1), self.word(d - 1))
+        if k < 0.78:
+            return Cat(*[self.word(d - 1) for _ in range(r.randint(1, 3))])
+        if k < 0.84:
+            return Replicate(self.word(d - 1), r.randint(1, 3))
+        if k < 0.92:
+            return _Operator(">>>", [self.atom(), Constant(r.randint(0, 3))])
+        return self.boolean(d - 1)
+
+    def top(self, d):
+        r = self.rng
+        k = r.random()
+        if k < 0.25:
+            return _Operator(r.choice(ARITH), [self.word(d - 1), self.word(d - 1)])
+        if k < 0.4 and self.s:
+            return _Operator(r.choice(ARITH + BITW), [r.choice(self.s), self.anyatom()])
+        if k < 0.5 and self.s:
+            return Mux(self.boolean(d - 1), r.choice(self.s), self.anyatom())
+        if k < 0.58:
+            return _Operator("<<<", [self.word(d - 1), Constant(r.randint(0, 3))])
+        if k < 0.65:
+            return _Operator("~", [self.word(d - 1)])
+        if k < 0.72 and self.s:
+            return _Operator("-", [r.choice(self.s)])
+        if k < 0.85:
+            return self.boolean(d)
+        return self.word(d)
+
+
+class PyVSim:
+    """Independent reading of a parsed module (ModuleText): non-blocking procedural semantics, comb re-evaluated
+    to a fix-point, posedge blocks on request.  State: id -> bits."""
+
+    def __init__(self, mt, name_ids):
+        self.w = {}
+        self.state = {}
+        for name, d in mt.decls.items():
+            i = name_ids[name]
+            self.w[i] = d["w"]
+            self.state[i] = 0
+            if d["init"] is not None:
+                t, _ = build_vtree(d["init"])
+                v_size(t)
+                self.state[i] = v_assign_value(t, {}, d["w"])
+        self.assigns, self.combs, self.syncs = [], [], []
+        for it in mt.items:
+            if it[0] == "assign":
+                l, p = build_vtree(it, 1)
+                r, p = build_vtree(it, p)
+                self.assigns.append((v_size(l), v_size(r)))
+            elif it[0] == "comb":
+                body, p = self.stmts(it, 2, int(it[1]))
+                self.combs.append(body)
+            else:
+                body, p = self.stmts(it, 3, int(it[2]))
+                self.syncs.append((int(it[1]), body))
+
+    def stmts(self, t, p, n):
+        out = []
+        for _ in range(n):
+            s, p = self.stmt(t, p)
+            out.append(s)
+        return out, p
+
+    def stmt(self, t, p):
+        k = t[p]
+        if k == "a":
+            l, p = build_vtree(t, p + 1)
+            r, p = build_vtree(t, p)
+            return ("a", v_size(l), v_size(r)), p
+        if k == "f":
+            c, p = build_vtree(t, p + 1)
+            tt, p = self.stmts(t, p + 1, int(t[p]))
+            p += 1  # hasElse flag
+            ff, p = self.stmts(t, p + 1, int(t[p]))
+            return ("f", v_size(c), tt, ff), p
+        if k == "w":
+            test, p = build_vtree(t, p + 1)
+            n = int(t[p])
+            p += 1
+            items = []
+            for _ in range(n):
+                key, p = build_vtree(t, p)
+                body, p = self.stmts(t, p + 1, int(t[p]))
+                items.append((v_size(key), body))
+            dflt = None
+            if t[p] == "1":
+                dflt, p = self.stmts(t, p + 2, int(t[p + 1]))
+            else:
+                p += 1
+            return ("w", v_size(test), items, dflt), p
+        raise ParseError("stmt " + k)
+
+    def lhs_parts(self, l, v, out):
+        """Split the value over the target(s): list of (id, lo, len, bits)."""
+        if l.k == "id":
+            out.append((l.a[0], 0, l.w, v & ((1 << l.w) - 1)))
+        elif l.k == "psel" and l.a[2].k == "id":
+            out.append((l.a[2].a[0], l.a[1], l.w, v & ((1 << l.w) - 1)))
+        elif l.k == "cat":
+            off = 0
+            for e in reversed(l.a):
+                self.lhs_parts(e, v >> off, out)
+                off += e.w
+        else:
+            raise ParseError("target")
+
+    def run(self, body, upd):
+        env = self.state
+        for s in body:
+            if s[0] == "a":
+                self.lhs_parts(s[1], v_assign_value(s[2], env, s[1].w), upd)
+            elif s[0] == "f":
+                self.run(s[2] if v_eval(s[1], env, s[1].w, s[1].s) != 0 else s[3], upd)
+            else:
+                test, items, dflt = s[1], s[2], s[3]
+                W = max([test.w] + [k.w for k, _ in items])
+                sg = test.s and all(k.s for k, _ in items)
+                tv = v_eval(test, env, W, sg)
+                for k, body2 in items:
+                    if v_eval(k, env, W, sg) == tv:
+                        self.run(body2, upd)
+                        break
+                else:
+                    if dflt is not None:
+                        self.run(dflt, upd)
+
+    def apply(self, upd):
+        changed = False
+        for i, lo, ln, bits in upd:
+            cur = self.state[i]
+            mask = ((1 << ln) - 1) << lo
+            new = ((cur & ~mask) | ((bits << lo) & mask)) & ((1 << self.w[i]) - 1)
+            if new != cur:
+                self.state[i] = new
+                changed = True
+        return changed
+
+    def settle(self, fuel=64):
+        for _ in range(fuel):
+            upd = []
+            for l, r in self.assigns:
+                self.lhs_parts(l, v_assign_value(r, self.state, l.w), upd)
+            for body in self.combs:
+                self.run(body, upd)
+            # all right-hand sides were evaluated on the old state: apply on a copy-free basis is fine because
+            # `upd` holds values, not expressions
+            if not self.apply(upd):
+                return
+
+    def tick(self, clk_ids):
+        upd = []
+        for clk, body in self.syncs:
+            if clk in clk_ids:
+                self.run(body, upd)
+        self.apply(upd)
+        self.settle()
